@@ -97,7 +97,7 @@ fn scaling_cases(out: &mut Out, r: &mut Rng, thorough: bool) {
         }
         // and end to end: fresh encryptions of these plaintexts must decrypt to them
         for mode in 0..2 {
-            let ct = enc_mode(&s, &plain, mode);
+            let ct = match std::panic::catch_unwind(std::panic::AssertUnwindSafe(|| enc_mode(&s, &plain, mode))) { Ok(c) => c, Err(_) => { let m = LAST_PANIC.with(|p| p.borrow().clone()); out.raw(&format!("!FAIL fresh_encrypt scaling mode={} :: encryption of a valid plaintext was refused / panicked: {} # encrypt-panic", mode, m.replace('\n', " "))); continue } };
             let trimmed = { let mut c = coeffs.clone(); while c.len() > 1 && *c.last().unwrap() == 0 { c.pop(); } c };
             out.case(&format!("fresh {} {} {}", s.ct_case(&ct), mode, fl(&trimmed)), &format!("{}-m{}", cls, mode), || s.dec_str(&ct));
         }
@@ -131,7 +131,7 @@ pub fn run(out: &mut Out, thorough: bool, seed: u64, _extra: &[String]) {
                 let vals: Vec<num_complex::Complex64> = (0..n / 2).map(|_| num_complex::Complex64::new(((r.below(2001) as f64) - 1000.0) / 8.0, ((r.below(2001) as f64) - 1000.0) / 8.0)).collect();
                 let plain = match std::panic::catch_unwind(std::panic::AssertUnwindSafe(|| enc.encode_c64_array_new(&vals, Some(pid), scale))) { Ok(p) => p, Err(_) => continue };
                 for mode in 0..5 {
-                    let ct = if mode < 3 { enc_mode(&s, &plain, mode) } else { enc_reuse(&s, &plain, mode, &mut r) };
+                    let ct = match std::panic::catch_unwind(std::panic::AssertUnwindSafe(|| if mode < 3 { enc_mode(&s, &plain, mode) } else { enc_reuse(&s, &plain, mode, &mut r) })) { Ok(c) => c, Err(_) => { let m = LAST_PANIC.with(|p| p.borrow().clone()); out.raw(&format!("!FAIL fresh_encrypt {} mode={} :: encryption of a valid plaintext was refused / panicked: {} # encrypt-panic", cls, mode, m.replace('\n', " "))); continue } };
                     let (mode, rz) = if mode >= 3 { (mode - 3, "-reuse") } else { (mode, "") };
                     let cls = format!("{}{}", cls, rz);
                     // `fresh`: ciphertext, the plaintext it was made from (RNS, NTT form), mode; impl = library decryption
@@ -147,7 +147,7 @@ pub fn run(out: &mut Out, thorough: bool, seed: u64, _extra: &[String]) {
             let mut plain = Plaintext::new(); plain.resize(coeffs.len()); plain.data_mut().copy_from_slice(&coeffs);
             let trimmed = { let mut c = coeffs.clone(); while c.len() > 1 && *c.last().unwrap() == 0 { c.pop(); } c };
             for mode in 0..5 {
-                let ct = if mode < 3 { enc_mode(&s, &plain, mode) } else { enc_reuse(&s, &plain, mode, &mut r) };
+                let ct = match std::panic::catch_unwind(std::panic::AssertUnwindSafe(|| if mode < 3 { enc_mode(&s, &plain, mode) } else { enc_reuse(&s, &plain, mode, &mut r) })) { Ok(c) => c, Err(_) => { let m = LAST_PANIC.with(|p| p.borrow().clone()); out.raw(&format!("!FAIL fresh_encrypt {} mode={} :: encryption of a valid plaintext was refused / panicked: {} # encrypt-panic", cls, mode, m.replace('\n', " "))); continue } };
                 let (mode, rz) = if mode >= 3 { (mode - 3, "-reuse") } else { (mode, "") };
                 let cls = format!("{}{}", cls, rz);
                 out.case(&format!("fresh {} {} {}", s.ct_case(&ct), mode, fl(&trimmed)), &format!("{}-p{}-m{}", cls, pk, mode), || s.dec_str(&ct));
@@ -160,7 +160,7 @@ pub fn run(out: &mut Out, thorough: bool, seed: u64, _extra: &[String]) {
             if pk == 0 {
                 for pid in s.levels() {
                     for mode in 0..2 {
-                        let ct = if mode == 0 { s.encryptor.encrypt_zero_new_at(&pid) } else { let c = s.encryptor.encrypt_zero_symmetric_new_at(&pid); if c.contains_seed() { c.expand_seed(&s.ctx) } else { c } };
+                        let ct = match std::panic::catch_unwind(std::panic::AssertUnwindSafe(|| if mode == 0 { s.encryptor.encrypt_zero_new_at(&pid) } else { let c = s.encryptor.encrypt_zero_symmetric_new_at(&pid); if c.contains_seed() { c.expand_seed(&s.ctx) } else { c } })) { Ok(c) => c, Err(_) => { out.raw(&format!("!FAIL fresh_encrypt {} zero mode={} :: encryption of zero was refused / panicked # encrypt-panic", cls, mode)); continue } };
                         out.case(&format!("fresh {} {} 0", s.ct_case(&ct), mode), &format!("{}-zero-m{}", cls, mode), || s.dec_str(&ct));
                     }
                 }
